@@ -1527,6 +1527,18 @@ func (b *Bitmap) ImportRoaringBits(data []byte, clear bool, log bool, rowSize ui
 		return 0, nil, errors.New("failed to create roaring iterator, but don't know why")
 	}
 
+	// Walk the container headers once before touching the bitmap: an import
+	// that turns out to be malformed half way is rejected as a whole and must
+	// leave the bitmap (and the op log) as they were.
+	if check, cerr := newRoaringIterator(data); cerr == nil && check != nil {
+		var verr error
+		for _, _, _, _, _, verr = check.Next(); verr == nil; _, _, _, _, _, verr = check.Next() {
+		}
+		if verr != io.EOF {
+			return 0, nil, verr
+		}
+	}
+
 	rowSet = make(map[uint64]int)
 
 	var synthC Container
